@@ -29,9 +29,11 @@
 (*            (harness/src/bin/builtins.rs -> IOEnv.ROBUST_TABLE); the     *)
 (*            value KINDS (constructor expression, magnitude, tier) and    *)
 (*            the DENY list are defined HERE.  TLC enumerates Kind^arity   *)
-(*            (exhaustively over the tier sets EXH1/EXH2/EXH3, plus        *)
+(*            (exhaustively over the kinds of tier <= T1 / T2 / T3, plus   *)
 (*            seed-determined samples over all kinds, plus one call with   *)
-(*            one argument too few / too many).  Oracle: the call is       *)
+(*            one argument too few / too many).  The "canary" cfg is the   *)
+(*            same machine with small tier sets; the driver uses it to     *)
+(*            set the crash budget (`cap`) of the full run.  Oracle: the call is       *)
 (*            `noncrash` (returns a value or an error VALUE within the     *)
 (*            time limit), and Probe(G) evaluated afterwards on the same   *)
 (*            engine gives the values computed here from G.                *)
@@ -78,7 +80,6 @@ EXTENDS Integers, Sequences, TLC, Json, IOUtils, FiniteSets
 
 CONSTANTS MODE,     \* "matrix" | "stages" | "inter" | "deep"
           SEED,     \* seed of every sampled choice
-          ROUND,    \* matrix: 1 = canaries (arity <= 1, tiers 1-2, every builtin); 2 = the rest
           T1,       \* matrix: highest kind tier enumerated exhaustively for 1 argument
           T2,       \*         ... for 2 arguments (0 = none)
           T3,       \*         ... for 3 arguments (0 = none)
@@ -282,7 +283,7 @@ Fx1 == CHOOSE k \in 1..NK : Kinds[k].n = "fx1"
 Exh(n) == IF n = 1 THEN KindsUpTo(T1) ELSE IF n = 2 THEN KindsUpTo(T2)
           ELSE IF n = 3 THEN KindsUpTo(T3) ELSE {}
 ExhOn(n) == (n = 1) \/ (n = 2 /\ T2 >= 1) \/ (n = 3 /\ T3 >= 1)
-NSamples(n) == IF n = 2 THEN NS2 ELSE IF n = 3 THEN NS3 ELSE IF n >= 4 THEN NSBIG ELSE 0
+NSamples(n) == IF n = 1 THEN 0 ELSE IF n = 2 THEN NS2 ELSE IF n = 3 THEN NS3 ELSE NSBIG
 SampleArgs(f, n, j) == [p \in 1..n |-> (Mix4(f, n, j, p) % NK) + 1]
 
 CallSrc(name, as) ==
@@ -539,38 +540,33 @@ DeepRec(r, di) ==
 Init == /\ phase = "start" /\ fi = 0 /\ ar = 0 /\ args = << >> /\ fam = "" /\ hist = << >> /\ G = G0
 
 \* ---- matrix
+\* A capped builtin (crash budget, set by the driver from the canary round: its crashes are known
+\* findings and each one costs a process restart) gets NCAP sampled tuples instead of the products.
 Capped(i) == Table[i].cap = 1
 MatrixPick ==
   /\ MODE = "matrix" /\ phase = "start"
   /\ \E i \in 1..NF :
        /\ Allowed(i)
        /\ fi' = i
-       /\ \/ \* exhaustive tuples
-             /\ ~Capped(i) \/ ROUND = 1
+       /\ \/ \* exhaustive tuples over the tier sets
+             /\ ~Capped(i)
              /\ \E n \in ValidAr(Table[i]) :
-                  /\ IF ROUND = 1 THEN n <= 1 ELSE (n \in 1..3 /\ ExhOn(n))
+                  /\ n = 0 \/ (n \in 1..3 /\ ExhOn(n))
                   /\ ar' = n /\ args' = << >> /\ fam' = "exh" /\ phase' = "args"
-          \/ \* sampled tuples over all kinds
-             /\ ROUND = 2
+          \/ \* seed-sampled tuples over all kinds
              /\ \E n \in ValidAr(Table[i]) : \E j \in 1..(IF Capped(i) THEN NCAP ELSE NSamples(n)) :
-                  /\ n >= 1 /\ (Capped(i) \/ n >= 2)
+                  /\ n >= 1
                   /\ ar' = n /\ args' = SampleArgs(i, n, j) /\ fam' = "smp" /\ phase' = "done"
-          \/ \* wrong number of arguments
-             /\ ROUND = 2
+          \/ \* one argument too few / too many
              /\ \E n \in WrongAr(Table[i]) :
                   /\ ar' = n /\ args' = [p \in 1..n |-> Fx1] /\ fam' = "arity" /\ phase' = "done"
   /\ UNCHANGED <<hist, G>>
-
-\* round 1 enumerates tier <= 2 for one argument; round 2 the kinds of round 1 are not repeated
-ArgChoices(n, pos) ==
-  IF ROUND = 1 THEN KindsUpTo(2)
-  ELSE IF n = 1 THEN Exh(1) \ KindsUpTo(2) ELSE Exh(n)
 
 MatrixArg ==
   /\ MODE = "matrix" /\ phase = "args"
   /\ IF Len(args) = ar
      THEN phase' = "done" /\ UNCHANGED args
-     ELSE \E k \in ArgChoices(ar, Len(args) + 1) : args' = Append(args, k) /\ phase' = "args"
+     ELSE \E k \in Exh(ar) : args' = Append(args, k) /\ phase' = "args"
   /\ UNCHANGED <<fi, ar, fam, hist, G>>
 
 \* ---- stages
